@@ -62,6 +62,41 @@ def bufio_interface(ctx):
     ctx.count("K13b-bufio-interface", 1, ["scan"], uses=uses, outside_interface=len(bad))
 
 
+def model_interface(ctx):
+    """the premise of C19_binreader_* / C19_tokenizer_read_*, checked on the Coq sources on every run: the reader models
+    reach their input (b_in, t_in) only inside the primitives those theorems speak about"""
+    coq = os.path.join(ROOT, "coq")
+    bad = []
+
+    def defs_using(path, proj):
+        src = re.sub(r"\(\*.*?\*\)", "", open(path).read(), flags=re.S)
+        out = set()
+        for m in re.finditer(r"^(?:Definition|Fixpoint|Function)\s+(\w+)(.*?)(?=^(?:Definition|Fixpoint|Function|Record|Inductive|Notation|Lemma|Theorem|Example)\b|\Z)", src, flags=re.S | re.M):
+            if re.search(r"\b%s\s+[A-Za-z(]" % proj, m.group(2)):
+                out.add(m.group(1))
+        return out
+
+    b_users = defs_using(os.path.join(coq, "Bin", "BitStream.v"), "b_in")
+    extra = b_users - {"b_read", "b_readN", "b_skip", "b_peek", "upd_state", "upd_stack", "upd_cur", "upd_alloc", "upd_fuel"}
+    if extra:
+        bad.append("Bin/BitStream.v reads b_in in " + ", ".join(sorted(extra)))
+    t_users = defs_using(os.path.join(coq, "Text", "Tokenizer.v"), "t_in")
+    extra = t_users - {"t_read", "t_rem", "t_fuel", "set_buf", "set_token", "set_unfinished", "set_tok"}
+    if extra:
+        bad.append("Text/Tokenizer.v reads t_in in " + ", ".join(sorted(extra)))
+    for sub, proj, home in (("Bin", "b_in", "BitStream.v"), ("Text", "t_in", "Tokenizer.v"), ("Sym", "b_in", ""), ("Cli", "b_in", ""), ("Go", "t_in", "")):
+        for f in sorted(os.listdir(os.path.join(coq, sub))):
+            if not f.endswith(".v") or f.endswith("P.v") or f.endswith("IO.v") or f == home or f.startswith(("Spell", "Tmp_", "Rej", "WriteSpell", "Skip")):
+                continue
+            src = re.sub(r"\(\*.*?\*\)", "", open(os.path.join(coq, sub, f)).read(), flags=re.S)
+            if re.search(r"\b%s\b" % proj, src):
+                bad.append("%s/%s mentions %s" % (sub, f, proj))
+    if bad:
+        ctx.fail("tie", "K13b-model-interface", "scan of the reader models",
+                 "a reader model reaches its input outside the primitives of C19_binreader_* / C19_tokenizer_read_*: " + "; ".join(bad[:5]))
+    ctx.count("K13b-model-interface", 1, ["scan"], b_in_users=sorted(b_users), t_in_users=sorted(t_users), outside=len(bad))
+
+
 def bufio_model(ctx):
     """K13b: Base/Bufio.v against the real bufio.Reader (operation programs x chunk schedules x final error), and the
     real answers against the chunk-free specification side of the model (bufiospec): that is the property itself"""
@@ -113,6 +148,7 @@ def bufio_model(ctx):
 
 def run(ctx):
     bufio_interface(ctx)
+    model_interface(ctx)
     bufio_model(ctx)
     rng = ctx.rng
     forests = binlib.gen_forests(ctx, ctx.scale(120, 3000), {"depth": 3})
